@@ -534,7 +534,7 @@ int main(int argc, char **argv) {
   add(pool_scenario(2, {"gf", "gf", "gf"}), false, thorough ? 3 : 2);
   if (thorough) {
     add(pool_scenario(3, {"gfgf", "ggff"}), true, 0);
-    add(pool_scenario(2, {"gfgfg", "gfg"}), true, 0);
+    add(pool_scenario(2, {"gfgf", "gfg"}), true, 0);
     add(pool_scenario(3, {"gfg", "gfg", "sf"}), false, 3);
   }
   // queues: tasks 0 (no locks), 1 (lock 0), 2 (locks 0,1), 3 (lock 1)
@@ -625,7 +625,7 @@ int main(int argc, char **argv) {
     opt.jobs = 16;
     opt.exec_timeout = 30.;
     const double remaining = A.deadline - R.elapsed();
-    opt.deadline = std::max(2., remaining / (double)(runs.size() - ir) * 2.);
+    opt.deadline = std::max(5., std::min(remaining * 0.5, remaining / (double)(runs.size() - ir) * 6.));
     e1::ExploreStats st = e1::explore(body, opt);
     total_exec += st.executions;
     total_states += st.distinct_states;
